@@ -208,30 +208,50 @@ def fileText (f : SlurmFile) : Bytes := render f.toJson
 def slurmB64 (v : Bytes) : Option Bytes :=
   if v.any (fun c => c = 43 || c = 47) then none else ProvMsg.unB64Url v
 
+/-- where a value sits: at the top, as the value of a member, or as an element of the array under a member -/
+inductive Ctx
+  | top
+  | key (k : Key)
+  | elem (k : Key)
+deriving DecidableEq, Repr
+
 mutual
 /-- what the field deserialisers do with a string: under `prefix` it goes through `Prefix::from_str`,
-under `SKI` and `routerPublicKey` through the Base64 reader; `k` is the member the value sits under -/
-def retype (k : Option Key) : Json → Json
+under `SKI` (exactly 27 characters) and `routerPublicKey` through the Base64 reader.  In the *sequence
+form* serde derives for every struct (its fields in declaration order in a JSON array) the position
+says which field a value is. -/
+def retype (ctx : Ctx) : Json → Json
   | .str s =>
-    (match k with
-     | some .prefixK => (match PfxText.parsePfx false s with | .ok p => .pfx p | .error _ => .str s)
+    (match ctx with
+     | .key .prefixK => (match PfxText.parsePfx false s with | .ok p => .pfx p | .error _ => .str s)
      -- `serde_key_identifier`: the text of a key identifier must be exactly 27 characters (20 octets, no padding)
-     | some .ski => if s.length ≠ 27 then .str s else (match slurmB64 s with | some b => .bytes b | none => .str s)
-     | some .routerPublicKey => (match slurmB64 s with | some b => .bytes b | none => .str s)
+     | .key .ski => if s.length ≠ 27 then .str s else (match slurmB64 s with | some b => .bytes b | none => .str s)
+     | .key .routerPublicKey => (match slurmB64 s with | some b => .bytes b | none => .str s)
      | _ => .str s)
-  | .arr l => .arr (retypeArr k l)
+  | .arr l =>
+    (match ctx, l with
+     | .top, [v, f, a] => .arr [v, retype (.key .validationOutputFilters) f, retype (.key .locallyAddedAssertions) a]
+     | .key .validationOutputFilters, [p, b, a] =>
+       .arr [retype (.key .prefixFilters) p, retype (.key .bgpsecFilters) b, retype (.key .aspaFilters) a]
+     | .key .locallyAddedAssertions, [p, b, a] =>
+       .arr [retype (.key .prefixAssertions) p, retype (.key .bgpsecAssertions) b, retype (.key .aspaAssertions) a]
+     | .elem .prefixFilters, [p, a, c] => .arr [retype (.key .prefixK) p, a, c]
+     | .elem .bgpsecFilters, [k, a, c] => .arr [retype (.key .ski) k, a, c]
+     | .elem .bgpsecAssertions, [a, k, key, c] => .arr [a, retype (.key .ski) k, retype (.key .routerPublicKey) key, c]
+     | .key k, l => .arr (retypeArr (.elem k) l)
+     | _, l => .arr l)
   | .obj l => .obj (retypeObj l)
   | j => j
-def retypeArr (k : Option Key) : List Json → List Json
+def retypeArr (ctx : Ctx) : List Json → List Json
   | [] => []
-  | x :: r => retype k x :: retypeArr k r
+  | x :: r => retype ctx x :: retypeArr ctx r
 def retypeObj : List (Key × Json) → List (Key × Json)
   | [] => []
-  | (k, v) :: r => (k, retype (some k) v) :: retypeObj r
+  | (k, v) :: r => (k, retype (.key k) v) :: retypeObj r
 end
 
 /-- a text to a file: reference reader, typed leaves, then the deserialisers of `Model/Slurm.lean` -/
 def readFile (b : Bytes) : Option SlurmFile :=
-  (parse b).bind fun j => SlurmFile.fromJson (retype none j)
+  (parse b).bind fun j => SlurmFile.fromJson (retype .top j)
 
 end Rpki.JsonText
